@@ -143,7 +143,7 @@ def classify_stderr(prop, text):
     out = []
     lines = text.splitlines()
     for i, ln in enumerate(lines):
-        m = re.search(r'ERROR: (AddressSanitizer|MemorySanitizer|LeakSanitizer): (\S+)', ln)
+        m = re.search(r'(?:ERROR|WARNING): (AddressSanitizer|MemorySanitizer|LeakSanitizer): (\S+)', ln)
         if m:
             kind = m.group(2).rstrip(':')
             acc = ''
